@@ -1,5 +1,6 @@
 //! `vh` — the Rust side of /verif: drivers that run the real samlang code and record
 //! traces for the TLA+ specifications, and replayers for TLC-generated behaviours.
+mod astdump;
 mod compile;
 mod edits;
 mod exec;
@@ -7,6 +8,7 @@ mod heap;
 mod patterns;
 mod positions;
 mod progs;
+mod scope;
 mod server;
 mod server_gen;
 mod syntax;
@@ -18,7 +20,9 @@ fn main() {
   let cmd = args.get(1).map(|s| s.as_str()).unwrap_or("");
   let rest = &args[2.min(args.len())..];
   match cmd {
+    "ast-dump" => astdump::main(rest),
     "compile" => compile::main(rest),
+    "mir-types" => compile::mir_types_main(rest),
     "run-programs" => progs::main(rest),
     "edits-run" => edits::run(rest),
     "heap-drive" => heap::drive(rest),
@@ -29,6 +33,9 @@ fn main() {
     "patterns-replay" => patterns::replay(rest),
     "positions-gen" => positions::gen(rest),
     "positions-run" => positions::run(rest),
+    "scope-run" => scope::run(rest),
+    "scope-real" => scope::real(rest),
+    "scope-show" => scope::show(rest),
     "server-gen" => server_gen::main(rest),
     "server-show" => server::show(rest),
     "server-replay" => server::replay(rest),
